@@ -28,7 +28,7 @@ Trim(m) == IF m = <<>> THEN m
 
 Mk(neg, m) == LET t == Trim(m) IN [neg |-> (neg /\ t # <<>>), mag |-> t]
 
-Zeros(k) == [i \in 1..k |-> 0]
+Zeros(k) == [i \in 1..k |-> 0] \o <<>>
 MagShiftLimbs(m, k) == IF m = <<>> THEN m ELSE Zeros(k) \o m
 
 RECURSIVE NatMag(_)
@@ -195,19 +195,19 @@ BitOp(op, a, b, n) ==            \* op on the low n bits of natives a, b
          IN z + 2 * BitOp(op, a \div 2, b \div 2, n - 1)
 
 TCLimbs(x, n) ==                 \* n limbs of the two's-complement reading
-    IF ~x.neg THEN [i \in 1..n |-> Limb(x.mag, i)]
-    ELSE LET m == MagSub(x.mag, <<1>>) IN [i \in 1..n |-> (B - 1) - Limb(m, i)]
+    IF ~x.neg THEN [i \in 1..n |-> Limb(x.mag, i)] \o <<>>     \* (\o <<>> makes TLC build the tuple now
+    ELSE LET m == MagSub(x.mag, <<1>>) IN [i \in 1..n |-> (B - 1) - Limb(m, i)] \o <<>>     \* instead of a lazy function)
 
 BitWise(op, x, y) ==
     LET n  == (IF Len(x.mag) > Len(y.mag) THEN Len(x.mag) ELSE Len(y.mag)) + 1
         xs == TCLimbs(x, n)
         ys == TCLimbs(y, n)
-        rs == [i \in 1..n |-> BitOp(op, xs[i], ys[i], LBITS)]
+        rs == [i \in 1..n |-> BitOp(op, xs[i], ys[i], LBITS)] \o <<>>
         sx == IF x.neg THEN 1 ELSE 0
         sy == IF y.neg THEN 1 ELSE 0
         rneg == BitOp(op, sx, sy, 1) = 1
     IN IF ~rneg THEN Mk(FALSE, rs)
-       ELSE Mk(TRUE, MagAdd(Trim([i \in 1..n |-> (B - 1) - rs[i]]), <<1>>))
+       ELSE Mk(TRUE, MagAdd(Trim([i \in 1..n |-> (B - 1) - rs[i]] \o <<>>), <<1>>))
 
 And(x, y) == BitWise("and", x, y)
 Or(x, y)  == BitWise("or", x, y)
@@ -230,7 +230,7 @@ MagDigitsLE(m, base, k, c) ==
     IF m = <<>> THEN <<>>
     ELSE LET qr == ShortDivMod(m, c) IN SmallDigitsLE(qr.r, base, k) \o MagDigitsLE(qr.q, base, k, c)
 
-Reverse(s) == [i \in 1..Len(s) |-> s[Len(s) + 1 - i]]
+Reverse(s) == [i \in 1..Len(s) |-> s[Len(s) + 1 - i]] \o <<>>
 
 ToDigits(x, base) ==
     IF x.mag = <<>> THEN <<0>>
@@ -274,10 +274,14 @@ ToDecimalString(x) ==
 InRange(x, lo, hi) == Cmp(lo, x) <= 0 /\ Cmp(x, hi) <= 0
 I32Min == Neg(Pow2(31))
 I32Max == Sub(Pow2(31), One)
+U32Max == Sub(Pow2(32), One)
+I64Min == Neg(Pow2(63))
+I64Max == Sub(Pow2(63), One)
+U64Max == Sub(Pow2(64), One)
 FitsI32(x) == InRange(x, I32Min, I32Max)
-FitsU32(x) == InRange(x, Zero, Sub(Pow2(32), One))
-FitsI64(x) == InRange(x, Neg(Pow2(63)), Sub(Pow2(63), One))
-FitsU64(x) == InRange(x, Zero, Sub(Pow2(64), One))
+FitsU32(x) == InRange(x, Zero, U32Max)
+FitsI64(x) == InRange(x, I64Min, I64Max)
+FitsU64(x) == InRange(x, Zero, U64Max)
 
 (* light smoke test, evaluated whenever the module is loaded; the full self-check is MC_BigInt *)
 ASSUME /\ ToInt(Add(FromInt(32767), FromInt(1))) = 32768
